@@ -70,8 +70,9 @@ def stage(ck, thorough):
         del records[:]
 
     every, step_recs = (9 if thorough else 3), []
-    for s in sigs:
-        sig = [dict(p, _default=p["def"]["n"] if p["hasdef"] else None, _alias=None) for p in s["sig"]]
+    for si, s in enumerate(sigs):
+        # every other declaration states its defaults through utype.Param(...) instead of a literal: the same meaning
+        sig = [dict(p, _default=p["def"]["n"] if p["hasdef"] else None, _alias=None, viaparam=bool(p["hasdef"] and si % 2 and not p["priv"])) for p in s["sig"]]
         try:
             fdec, fraw, dlog, rlog, dsrc = c08.build(sig, "function")
         except Exception as e:
